@@ -170,7 +170,7 @@ func (e *env) run(in Input) Obs {
 	notes := make([][]string, len(in.Progs))
 	wrongs := make([]int, len(in.Progs))
 	for i := range in.Progs {
-		ctl.actors = append(ctl.actors, &actor{id: i, wake: make(chan int), last: i == len(in.Progs)-1})
+		ctl.actors = append(ctl.actors, &actor{id: i, wake: make(chan int, 1), last: i == len(in.Progs)-1})
 	}
 	for i, prog := range in.Progs {
 		go func(a *actor, prog []Op, i int) {
@@ -656,6 +656,26 @@ func main() {
 		q := func(k string, tx bool) Op { return Op{K: k, Q: 0, Tx: tx} }
 		enumBase(add, [][]Op{{q("query", false)}, {q("exec", false)}}, -1, 120)
 		enumBase(add, [][]Op{{q("query", false)}, {{K: "reset"}}}, -1, 120)
+	}
+	// burst stream: 3..4 goroutines start the same cold text at the very same time (the window
+	// between the RLock check and the publication under Lock is only hit by a real race)
+	nburst := 60
+	if a.Tier == "thorough" {
+		nburst = 600
+	}
+	for i := 0; i < nburst; i++ {
+		g := r.Range(3, 4)
+		var in Input
+		for j := 0; j < g; j++ {
+			k := lib.Pick(r, []string{"query", "exec", "query"})
+			in.Progs = append(in.Progs, []Op{{K: k, Q: 0, Tx: i%5 == 4 && j == 0}})
+		}
+		in.Progs = append(in.Progs, []Op{{K: "close"}})
+		in.Script = []Step{{Pick: -1}}
+		for k := 0; k < 20; k++ {
+			in.Script = append(in.Script, Step{Pick: r.Intn(4)})
+		}
+		add("burst", in)
 	}
 	budget, maxG := 260, 3
 	if a.Tier == "thorough" {
